@@ -89,12 +89,6 @@ def applies(target, lookup):
 HIST_LINES = ["a f1 line", "f2 and f3", "f1 again", "nothing", "f1 f2 f3", "last f1"]
 
 
-def storage(target):
-    """a filter registered on the spec, or through a parser / combiner depending on it, is stored on the spec (budgets for one
-    string merge by maximum there); one registered on an implementation is stored on that implementation"""
-    return "R" if target in ("R", "P", "C") else target
-
-
 def run_history(g, ops):
     """-> list of (op index, observed set or dict, expected {filter: set of acceptable budgets})"""
     out = []
@@ -124,13 +118,16 @@ def run_history(g, ops):
             _, t, wm = op
             got = F.get_filters(g[t], wm)
             exp = {}
-            groups = {}
             for (rt, p, b) in reg:
                 if applies(rt, t):
-                    groups[(storage(rt), p)] = max(groups.get((storage(rt), p), 0), b)
-            for (st, p), b in groups.items():
-                exp.setdefault(p, set()).add(b)
-            out.append((i, got, exp))
+                    exp.setdefault(p, set()).add(b)
+            # "no matter in which order registrations and look-ups happened": the same registrations made on a fresh copy of the
+            # component graph, with no look-up, load or collection in between, must give the same answer
+            g2 = build_graph()
+            for (rt, p, b) in reg:
+                F.add_filter(g2[rt], p, b)
+            fresh = F.get_filters(g2[t], wm)
+            out.append((i, got, exp, fresh))
     return out
 
 
@@ -145,14 +142,16 @@ def _cleaner():
 
 def judge_history(res):
     bad = []
-    for i, got, exp in res:
+    for i, got, exp, fresh in res:
         keys = set(got.keys()) if isinstance(got, dict) else set(got)
         if keys != set(exp):
             bad.append("look-up at step %d returned %s, the filters registered so far are %s" % (i, sorted(keys), sorted(exp)))
         elif isinstance(got, dict):
             for p, b in got.items():
                 if b not in exp[p]:
-                    bad.append("look-up at step %d: budget %r for %s is not the budget in force (largest registered: %s)" % (i, b, p, sorted(exp[p])))
+                    bad.append("look-up at step %d: budget %r for %s was never registered (%s)" % (i, b, p, sorted(exp[p])))
+            if dict(got) != dict(fresh):
+                bad.append("look-up at step %d returned %s; the same registrations without earlier look-ups / loads give %s" % (i, sorted(got.items()), sorted(fresh.items())))
     return bad
 
 
@@ -416,10 +415,10 @@ def obligations(tier):
            SF.TextFileProvider.create_args, SF.CommandOutputProvider.create_args, SF.FileProvider.validate, SF.CommandOutputProvider.validate]
     return [
         Obligation("O1-histories", make_history(4 if thorough else 3), ["effective-set"],
-                   desc="interleavings of add_filter on a spec / an implementation / a parser / a combiner, content loads that post-filter with the look-up result (analysis) or clean with it as allow-list (host collection), and get_filters on the spec and both implementations; every look-up returns the registered filters with the largest budget registered per storage component",
+                   desc="interleavings of add_filter on a spec / an implementation / a parser / a combiner, content loads that post-filter with the look-up result (analysis) or clean with it as allow-list (host collection), and get_filters on the spec and both implementations; every look-up returns exactly the registered filters, with budgets that were registered, and the same answer as the same registrations give on a fresh copy of the graph without any earlier look-up / load / collection",
                    bounds={"history length": "<= %d operations + a final look-up" % (4 if thorough else 3), "targets": TARGETS, "look-ups": LOOKUPS, "patterns": PATS, "budgets": BUDGETS},
                    stubs=["host collection: the provider's content is preset instead of running the grep pre-filter as a subprocess"],
-                   outside=["filters.yaml loading (yaml is C code)"], encoded=enc[:2] + [SF.ContentProvider._clean_content, SF.FileProvider.__init__], budget_s=900 if thorough else 120, replay="history", check_sample=True),
+                   outside=["filters.yaml loading (yaml is C code)"], encoded=enc[:2] + [SF.ContentProvider._clean_content, SF.FileProvider.__init__], budget_s=900 if thorough else 300, replay="history", check_sample=True),
         Obligation("O2-kept-lines", make_kept(5 if thorough else 4, 3 if thorough else 2), ["kept-lines"],
                    desc="AllowFilter.filter_content, Cleaner.clean_content(allowlist) and apply_filters on lines with a symbolic containment matrix and symbolic budgets",
                    bounds={"lines": 5 if thorough else 4, "filters": 3 if thorough else 2, "containment": "every boolean matrix", "budgets": "symbolic ints in [1,3]"},
